@@ -402,6 +402,10 @@ class Parser:
             if self.at(";"):
                 self.next()
             return N("return", x.pos, e=e)
+        if x.kind == "id" and x.text == "loop" and self.at("{", 1):
+            # genfm: `loop { … }` (translated only in tail position with `return` as its only exit, on fuel)
+            self.next()
+            return N("loop", x.pos, body=self.block())
         if x.kind == "id" and x.text == "break" and self.at(";", 1):
             # genfm: plain `break;` (translated only as the last statement of `if c { …; break; }` in a `for` body)
             self.next()
@@ -955,6 +959,8 @@ class FnTranslator:
             return str(e.v), t
         if k == "blit":
             return ("true" if e.v else "false"), TBool()
+        if k == "var" and e.name == "None" and isinstance(expected, TOpt):
+            return "none", expected            # genfm
         if k == "var":
             v = self.lookup(e.name, e)
             return v.lean, v.ty
@@ -1295,6 +1301,11 @@ class FnTranslator:
             if not isinstance(expected, TSeq):
                 self.err("`Vec::new()` without a declared element type", e)
             return "[]", expected
+        if e.path == ["Some"] and len(e.args) == 1:
+            # genfm: `Some(e)`
+            el = expected.elem if isinstance(expected, TOpt) else None
+            sv, tv = self.expr(e.args[0], code, el)
+            return "some %s" % atom(sv), TOpt(tv)
         if e.path == ["Vec", "with_capacity"] and len(e.args) == 1:
             # genfm: capacity is a hint; the argument is evaluated (it may panic), the vector is empty
             if not isinstance(expected, TSeq):
@@ -1381,6 +1392,9 @@ class FnTranslator:
             return self.for_(s, code)
         if k == "return":
             self.err("`return` is only translated as the last statement of the function body", s)
+        if k == "loop":
+            self.err("`loop` is only translated as the last statement of a block in tail position of the function, with "
+                     "`return` as its only exit", s)
         if k == "break":
             self.err("`break` is only translated as the last statement of `if c { …; break; }` directly in a `for` body", s)
         self.err("statement `%s`" % k, s)
@@ -1920,6 +1934,10 @@ class FnTranslator:
                     self.err("early `return` of type %r, the function returns %r" % (tys1, tys2), st)
                 code.final = ("if", c, th, el)
                 return tys2
+            if st.kind == "loop":
+                if idx != len(stmts) - 1 or tail_node is not None or cont is not None:
+                    self.err("statements after `loop` (a `loop` without `break` never falls through)", st)
+                return self.loop_(st, code)
             if st.kind == "ifs" and self.has_kind(st.e, "return"):
                 # genfm: a `return` nested anywhere below this `if` (not in loops): both branches are continued with the
                 # rest of the function (the continuation is translated once per branch that can fall through)
@@ -1941,7 +1959,70 @@ class FnTranslator:
             self.stmt(st, code, False)
         if cont is not None and tail_node is None:
             return self.run_cont(cont, code)
+        if tail_node is not None and tail_node.kind == "if" and tail_node.els is not None and cont is None \
+                and (self.has_kind(tail_node, "return") or self.has_kind(tail_node, "loop")):
+            # genfm: the function ends in `if c { stmts… } else { stmts… }` whose branches are statement blocks
+            # (with `return`s / a final `loop`): each branch is a function tail of its own
+            e = tail_node
+            c, bound = self.cond(e.cond, code)
+            outs = []
+            subs = []
+            for b, bnd in ((e.then, bound), (e.els, [])):
+                sub = Code()
+                self.scopes.append(dict((v.rust, v) for v in bnd))
+                self.scopes.append({})
+                try:
+                    outs.append(self.seq(b.stmts, b.tail, sub, b))
+                finally:
+                    self.scopes.pop()
+                    self.scopes.pop()
+                subs.append(sub)
+            if outs[0] != outs[1]:
+                self.err("`if` in tail position with branches of type %r and %r" % (outs[0], outs[1]), e)
+            code.final = ("if", c, subs[0], subs[1])
+            return outs[0]
         return self.finish(tail_node, code, where)
+
+    def loop_(self, s, code):
+        """genfm: `loop { … }` in tail position whose only exits are `return`s: a recursive helper on fuel (the k-th fuel
+        expression of the spec, shared numbering with `while`); falling off the end of the body is the recursive call"""
+        self.n_while += 1
+        k = self.n_while
+        name = "%s_loop%d" % (self.lean_fn, k)
+        if k > len(self.fuels):
+            self.err("`loop` number %d has no fuel expression in the translation spec" % k, s)
+        if self.ret_fields:
+            self.err("`loop` in a function that also returns assigned fields", s)
+        if self.has_kind(s.body, "break") or self.has_kind(s.body, "loop"):
+            self.err("`break` / nested `loop` inside `loop`", s)
+        fuel = self.fuels[k - 1]
+        state = self.outer_vars(self.assigned(s.body), s)
+        state_names = [v.rust for v in state]
+        caps = self.captured(s.body, state_names, [])
+        saved_scopes = self.scopes
+        self.scopes = [dict((v.rust, Var(v.rust, v.lean, v.ty)) for v in caps + state)]
+        self.loop_depth += 1
+        try:
+            body = Code()
+            rec = "%s%s%s fuel %s" % (name, self.abs_args(), "".join(" " + v.lean for v in caps),
+                                      tuple_val([v.lean for v in state]))
+            ub = self.unit_block(s.body)
+            self.scopes.append({})
+            out_tys = self.seq(ub.stmts, None, body, ub, ("%call", rec, [self.ret]))
+            self.scopes.pop()
+        finally:
+            self.scopes = saved_scopes
+            self.loop_depth -= 1
+        st_ty = tuple_ty([v.ty for v in state])
+        lines = ["/-- `loop` (line %d); fuel: `%s` -/" % (self.src.line_of(s.pos), fuel),
+                 "%s : Nat → %s → Res %s" % (self.helper_header(name, caps), paren_ty(st_ty), paren_ty(tuple_ty(out_tys))),
+                 "  | 0, _ => Res.fuel",
+                 "  | fuel + 1, %s => do" % tuple_pat([v.lean for v in state])]
+        emit_code(body, 4, lines)
+        self.helpers.append("\n".join(lines))
+        code.final = ("call", "%s%s%s %s %s" % (name, self.abs_args(), "".join(" " + v.lean for v in caps), atom(fuel),
+                                               tuple_val([v.lean for v in state])))
+        return out_tys
 
     def seq_block(self, b, code, rest):
         """genfm: a branch block of an `if` that contains a `return`, continued with `rest`"""
@@ -1957,6 +2038,9 @@ class FnTranslator:
             self.scopes.pop()
 
     def run_cont(self, rest, code):
+        if rest[0] == "%call":
+            code.final = ("call", rest[1])
+            return rest[2]
         stmts, tail_node, where, cont, depth = rest
         saved = self.scopes
         self.scopes = self.scopes[:depth] + [{}]
@@ -2065,6 +2149,26 @@ def translate_unit(src, unit, fail):
         what = "fn %s" % f["name"]
         rx = header_regex(f["header"])
         ms = list(re.finditer(rx, src.code))
+        if f.get("within"):
+            # genfm: the function is looked for inside the single item (an `impl` block) with this header
+            ws = list(re.finditer(tokens_regex(f["within"]) + r"\s*\{", src.code))
+            if len(ws) != 1:
+                fail("%s: %s: expected exactly one item `%s`, found %d" % (rel, what, f["within"][:100], len(ws)))
+            lo = ws[0].end() - 1
+            depth, hi = 0, None
+            for i in range(lo, len(src.code)):
+                if src.code[i] == "{":
+                    depth += 1
+                elif src.code[i] == "}":
+                    depth -= 1
+                    if depth == 0:
+                        hi = i
+                        break
+            ms = [m for m in ms if hi is not None and lo < m.start() < hi]
+            if len(ms) == 1:
+                rx = "(?s)(?<=^.{%d})" % ms[0].start() + rx      # the same header, at this position only
+                if len(list(re.finditer(rx, src.code))) != 1:
+                    fail("%s: %s: internal: cannot pin the header inside `%s`" % (rel, what, f["within"][:60]))
         if len(ms) != 1:
             fail("%s: %s: expected exactly one function with the header `%s`, found %d (signature changed, renamed or "
                  "restructured: the translation spec in tools/rs2lean.py pins the header)" % (rel, what, f["header"], len(ms)))
@@ -2328,6 +2432,26 @@ unit(name="SrcBackwardSearch", props="property C05", file="src/data_structures/f
                      locals={"l": "usize", "r": "usize", "pl": "usize", "pr": "usize", "matched_len": "usize",
                              "complete_match": "bool", "lower": "usize", "upper": "usize"},
                      theorem="RbV.Thm.GenSrcBackwardSearch.backward_search_eq_model")])
+
+
+# `SampledSuffixArray::get` (the LF walk to the next sampled row): `self.extra_rows[&pos]` (hash-map index, panics on a missing
+# key) is the abstract lookup `extraLookup pos` followed by `.unwrap()`; `self.occ.borrow().get(self.bwt.borrow(), r, c)` is the
+# abstract `occF r c` (the translated `Occ::get` of Gen/SrcOcc.lean returns it: `occ_get_source_exact`); `self.len()` (defined
+# two lines below as `self.bwt.borrow().len()`) is the abstract value `len`
+unit(name="SrcSampledGet", props="properties C03, C05", file="src/data_structures/suffix_array.rs",
+     functions=[dict(name="SampledSuffixArray::get", lean="get", header="fn get(&self, index: usize) -> Option<usize>",
+                     within="impl<DBWT: Borrow<BWT>, DLess: Borrow<Less>, DOcc: Borrow<Occ>> SuffixArray "
+                            "for SampledSuffixArray<DBWT, DLess, DOcc>",
+                     rewrites=[("self.extra_rows[&pos]", "extra_rows_lookup(pos).unwrap()"),
+                               ("self.occ.borrow().get(self.bwt.borrow(),", "occ_get("),
+                               ("self.len()", "self_len()")],
+                     abstract_fns={"extra_rows_lookup": dict(lean="extraLookup", args=["usize"], ret="Option<usize>"),
+                                   "occ_get": dict(lean="occF", args=["usize", "u8"], ret="usize"),
+                                   "self_len": dict(lean="len", args=[], ret="usize", is_value=True)},
+                     self_fields=[("bwt", "Vec<u8>"), ("less", "Vec<usize>"), ("sample", "Vec<usize>"), ("s", "usize"),
+                                  ("sentinel", "u8")],
+                     params=[("index", "usize")], ret="Option<usize>", locals={"offset": "usize"},
+                     fuel=["len + 1"], theorem="RbV.Thm.GenSrcSampledGet.get_eq_model")])
 
 
 # ================================================================================================== self-test
